@@ -108,7 +108,7 @@ CHECKS = {
     },
     "C16": {
         "text": "Coq over Model/Cache.v (bucketed CLOCK cache with murmur3 bucket choice): after every operation of every sequence the reported memory equals the total size of the held entries and there is at most one entry per key; an explicit remove is never followed by a hit; eviction reaches the low watermark; if evicting every unreferenced entry would reach the low watermark, every referenced entry survives evict_entries. Coq over Model/CacheGen.v (the generation-tagged cache calls and the store's read / write / update_ttl paths around them, as atomic steps under an arbitrary schedule of readers, writers, offloads, record drops and evictions): a tagged entry always holds the value of the generation it is tagged with, so a hit serves exactly the generation asked for and every read result is a value of a generation of the key; refinement: the results, table and generations of any run with the cache on are those of the same machine without a cache under the same schedule (only device-staleness answers the cached run never asked for are chosen), and with no refused device reads -- every sequential execution -- the two runs are equal step for step. Ties: the public ClockCache API vs Model.Cache on random sequences with evictions plus an oracle; the tagged calls of a real ClockCache over real Records vs Model.CacheGen through hook H13 (T-eq); end to end, the C01 call sequences in all 12 persistent configurations, cache on and off, must equal the same reference map with offloaded and cached values.",
-        "note": TRUST + " The store-level layer of Model.CacheGen (which step calls which cache function) is tied to the code by the sequence and race engines, not by a step-for-step comparison; reader/writer interleavings of the real store are sampled by the race engine (C08), not enumerated.",
+        "note": TRUST + " The store-level layer of Model.CacheGen is tied step for step on scripted schedules with one held reader (engine cachesched); free-running reader/writer interleavings of the real store are sampled by the race engine (C08), not enumerated.",
         "design": "DESIGN.md section 5 C16",
     },
     "C17": {
